@@ -60,6 +60,17 @@ ERR_OF = {"EValidation": "ValidationError", "EType": "TypeError", "EAttribute": 
 # ---------------------------------------------------------------- calls
 # call := ["write", id, ser, shape, reason] | ["validate"] | ["serialize"] | ["flush", cls] | ["reset"]
 #   ser in none|tb|t0|t1; shape in ok|extra (unexpected field: ValidationError)|badjson (TypeError); reason = exception class index
+
+def _failed_list(logger):
+    """the logger's record of failed validations (a list of str), whatever the attribute is called"""
+    v = getattr(logger, "_failed_validations", None)
+    if isinstance(v, list):
+        return v
+    for k, val in vars(logger).items():
+        if k not in ("messages", "serializers", "tracebackMessages") and isinstance(val, list) and all(isinstance(x, str) for x in val):
+            return val
+    return []
+
 def verdict(call):
     _, _, ser, shape, _ = call
     if shape == "extra" and ser in ("t0", "t1"):
@@ -294,7 +305,7 @@ def run_mem(threads, schedule):
         m = re.search(r"'id': (\d+)", text)
         return int(m.group(1)) if m else -1
     final = {"messages": [m.get("id") for m in logger.messages], "serializers": [ser_code(z) for z in logger.serializers],
-             "tracebacks": [m.get("id") for m in logger.tracebackMessages], "failed": [fid(x) for x in logger._failed_validations]}
+             "tracebacks": [m.get("id") for m in logger.tracebackMessages], "failed": [fid(x) for x in _failed_list(logger)]}
     acquired = [t for kind, t, _ in s.events if kind == "acquire"]
     contend = [info for kind, t, info in s.events if kind == "contend"]
     # linearisation: the lock-acquisition order when every call took the lock exactly once, else any order that explains the run
